@@ -12,36 +12,36 @@ Eval vm_compute in (report eon_program (one "SIS_pair_based")).
 Eval vm_compute in (dead_report eon_program (one "SIS_pair_based")).
 Eval vm_compute in (report eon_program (one "EBCM_from_graph")).
 Eval vm_compute in (dead_report eon_program (one "EBCM_from_graph")).
-Eval vm_compute in (report eon_program (one "SIS_heterogeneous_pairwise")).
-Eval vm_compute in (dead_report eon_program (one "SIS_heterogeneous_pairwise")).
 Eval vm_compute in (report eon_program (one "Attack_rate_cts_time_from_graph")).
 Eval vm_compute in (dead_report eon_program (one "Attack_rate_cts_time_from_graph")).
-Eval vm_compute in (report eon_program (one "SIS_homogeneous_pairwise_from_graph")).
-Eval vm_compute in (dead_report eon_program (one "SIS_homogeneous_pairwise_from_graph")).
+Eval vm_compute in (report eon_program (one "EBCM_discrete")).
+Eval vm_compute in (dead_report eon_program (one "EBCM_discrete")).
+Eval vm_compute in (report eon_program (one "Attack_rate_cts_time")).
+Eval vm_compute in (dead_report eon_program (one "Attack_rate_cts_time")).
 Eval vm_compute in (report eon_program (one "SIR_effective_degree")).
 Eval vm_compute in (dead_report eon_program (one "SIR_effective_degree")).
 Eval vm_compute in (report eon_program (one "Epi_Prob_non_Markovian")).
 Eval vm_compute in (dead_report eon_program (one "Epi_Prob_non_Markovian")).
-Eval vm_compute in (report eon_program (one "_dSIR_super_compact_pairwise_")).
-Eval vm_compute in (dead_report eon_program (one "_dSIR_super_compact_pairwise_")).
-Eval vm_compute in (report eon_program (one "SIR_homogeneous_pairwise")).
-Eval vm_compute in (dead_report eon_program (one "SIR_homogeneous_pairwise")).
-Eval vm_compute in (report eon_program (one "Epi_Prob_cts_time")).
-Eval vm_compute in (dead_report eon_program (one "Epi_Prob_cts_time")).
-Eval vm_compute in (report eon_program (one "_dSIS_heterogeneous_meanfield_")).
-Eval vm_compute in (dead_report eon_program (one "_dSIS_heterogeneous_meanfield_")).
+Eval vm_compute in (report eon_program (one "SIS_heterogeneous_meanfield")).
+Eval vm_compute in (dead_report eon_program (one "SIS_heterogeneous_meanfield")).
+Eval vm_compute in (report eon_program (one "SIS_homogeneous_pairwise")).
+Eval vm_compute in (dead_report eon_program (one "SIS_homogeneous_pairwise")).
+Eval vm_compute in (report eon_program (one "SIS_heterogeneous_pairwise_from_graph")).
+Eval vm_compute in (dead_report eon_program (one "SIS_heterogeneous_pairwise_from_graph")).
+Eval vm_compute in (report eon_program (one "SIR_individual_based_pure_IC")).
+Eval vm_compute in (dead_report eon_program (one "SIR_individual_based_pure_IC")).
 Eval vm_compute in (report eon_program (one "fast_SIR")).
 Eval vm_compute in (dead_report eon_program (one "fast_SIR")).
 Eval vm_compute in (report eon_program (one "Epi_Prob_discrete")).
 Eval vm_compute in (dead_report eon_program (one "Epi_Prob_discrete")).
-Eval vm_compute in (report eon_program (one "_initialize_node_status_")).
-Eval vm_compute in (dead_report eon_program (one "_initialize_node_status_")).
-Eval vm_compute in (report eon_program (one "get_PGFPrime")).
-Eval vm_compute in (dead_report eon_program (one "get_PGFPrime")).
-Eval vm_compute in (report eon_program (one "estimate_SIR_prob_size")).
-Eval vm_compute in (dead_report eon_program (one "estimate_SIR_prob_size")).
+Eval vm_compute in (report eon_program (one "SIR_homogeneous_meanfield_from_graph")).
+Eval vm_compute in (dead_report eon_program (one "SIR_homogeneous_meanfield_from_graph")).
 Eval vm_compute in (report eon_program (one "get_Pk")).
 Eval vm_compute in (dead_report eon_program (one "get_Pk")).
+Eval vm_compute in (report eon_program (one "SIR_heterogeneous_meanfield_from_graph")).
+Eval vm_compute in (dead_report eon_program (one "SIR_heterogeneous_meanfield_from_graph")).
+Eval vm_compute in (report eon_program (one "_find_trans_and_rec_delays_SIS_")).
+Eval vm_compute in (dead_report eon_program (one "_find_trans_and_rec_delays_SIS_")).
 Eval vm_compute in (report eon_program (one "_process_rec_SIS_")).
 Eval vm_compute in (dead_report eon_program (one "_process_rec_SIS_")).
 Eval vm_compute in (report eon_program (one "SIS_compact_effective_degree_from_graph")).
